@@ -157,6 +157,13 @@ def run_one(R, level, table, entry, cells, db, variant, bulk, label, w=None):
         R.violation(case, "table fetch did not end within %d requests" % w.seam.budget)
         return None
     if outcome != "ok":
+        if level == "v1" and type(outcome).__name__ == "NoSuchOID" and not any(k > tuple(entry) for k in db) and len(w.seam.requests) == 1:
+            # SNMPv1, and NOTHING follows the entry in the agent's whole MIB: the agent can
+            # only answer the very first GETNEXT with error-status noSuchName, and C08
+            # states that an error-status surfaces as the documented exception.  Not a
+            # matter of table assembly: not judged here.
+            R.mon["v1_first_request_answered_nosuchname"] += 1
+            return None
         R.violation(case, "table fetch raised %r against a conformant agent" % (outcome,))
         return None
     rows, problems = normalise(res, py)
